@@ -663,6 +663,9 @@ fn receiver_body(c: &mut Ctx, su: &Setup, thorough: bool) -> Result<(), Violatio
             }
         }
     }
+    if c.props.has("C02") {
+        return honest_sender_epilogue(c, su, key, total, data_seq0, delivered, eof);
+    }
     // ---- sometimes the peer resets the connection in the middle; the application keeps reading: whatever it
     // still gets is the peer's stream, and the end is never reported as graceful unless the FIN was delivered
     if c.tape.draw(3) == 2 {
@@ -698,6 +701,112 @@ fn receiver_body(c: &mut Ctx, su: &Setup, thorough: bool) -> Result<(), Violatio
                 }
                 Err(tcp::RecvError::InvalidState) => break,
             }
+        }
+    }
+    Ok(())
+}
+
+/// C02 for the receiving side, with a scripted sender: after the adversarial phase (segments left of, inside, across
+/// and beyond the window, out of order, duplicated, stale and bogus ACK fields) the peer turns into a plain correct
+/// sender on a loss-free network - it (re)sends its stream in order from the victim's acknowledgment number, never
+/// beyond the window the victim advertised last, probes a closed window with one octet once a second, ends with its
+/// FIN and acknowledges everything the victim sends - while the victim's application reads whatever arrives and the
+/// victim is polled per poll_at. Every octet of the stream and its end must then reach the application.
+fn honest_sender_epilogue(c: &mut Ctx, su: &Setup, key: u64, total: u64, data_seq0: u32, mut delivered: u64, mut eof: bool) -> Result<(), Violation> {
+    use tcp::State::*;
+    if !matches!(c.sock().state(), Established | FinWait1 | FinWait2 | CloseWait | Closing | LastAck | TimeWait) {
+        return Ok(());
+    }
+    c.stats.inc("c02.honest-sender-epilogues");
+    let t0 = c.now;
+    let mss = (c.v_mss.unwrap_or(536) as u64).clamp(1, 1400).min(su.mtu.saturating_sub(60).max(1) as u64);
+    let mut last_progress = c.now;
+    let mut mark = (u64::MAX, u64::MAX, false);
+    let mut last_probe = c.now - 2_000_000;
+    for round in 0..20_000u32 {
+        // ---- the victim's application reads whatever is there
+        loop {
+            let mut buf = vec![0u8; 4096];
+            let r = {
+                let s = c.node.sockets.get_mut::<tcp::Socket>(c.h);
+                guard("tcp::recv_slice", || s.recv_slice(&mut buf))?
+            };
+            match r {
+                Ok(0) => break,
+                Ok(k) => delivered += k as u64,
+                Err(tcp::RecvError::Finished) => {
+                    eof = true;
+                    break;
+                }
+                Err(tcp::RecvError::InvalidState) => break,
+            }
+        }
+        if eof && delivered >= total {
+            c.stats.inc("c02.honest-sender-epilogues-completed");
+            return Ok(());
+        }
+        let st = c.sock().state();
+        if matches!(st, Closed | Listen | SynSent | SynReceived) {
+            // (the connection is gone: reset or re-used by the adversarial phase - nothing to claim)
+            return Ok(());
+        }
+        let _ = c.poll()?;
+        // ---- the sender: in order from the acknowledgment number, inside the window advertised last
+        let nxt_off = seq_diff(c.v_ack, data_seq0).max(0) as u64;
+        let edge_off = c.v_edge_last.map(|e| seq_diff(e, data_seq0).max(0) as u64).unwrap_or(nxt_off);
+        let now_mark = (delivered, nxt_off, eof);
+        if now_mark != mark {
+            mark = now_mark;
+            last_progress = c.now;
+        }
+        if c.now - last_progress > 400_000_000 {
+            return Err(viol("C02", "progress", format!("C02.progress/scripted-sender/state={},window{}", st_name(st), if edge_off > nxt_off { ">0" } else { "=0" }), format!("a correct sender on a loss-free network, the application reading everything, the victim polled per poll_at: no progress for 400 simulated seconds ({} of {} octets delivered to the application, end of stream {} reported; the victim acknowledges offset {} and advertises a window of {} octets; state {}; receive buffer {} octets; epilogue began at t={} us, now {} us)", delivered, total, if eof { "was" } else { "not" }, nxt_off, edge_off.saturating_sub(nxt_off), st_name(st), su.rx, t0, c.now)));
+        }
+        let ack = c.v_snd_max;
+        if nxt_off <= total {
+            let mut off = nxt_off;
+            let mut sent_any = false;
+            let mut budget = 16;
+            while off < total && off < edge_off && budget > 0 {
+                let len = (total - off).min(edge_off - off).min(mss);
+                let fin = off + len == total;
+                let payload: Vec<u8> = (0..len).map(|j| stream_byte(key, off + j)).collect();
+                let t = Tcp { seq: data_seq0.wrapping_add(off as u32), ack, flags: F_ACK | if fin { F_FIN } else { 0 }, win: 4096, payload, ..Tcp::default() };
+                let f = c.seg(&t);
+                let _ = c.inject(f)?;
+                off += len;
+                sent_any = true;
+                budget -= 1;
+            }
+            if !sent_any {
+                if nxt_off == total {
+                    // only the FIN is left: it needs no window
+                    let t = Tcp { seq: data_seq0.wrapping_add(total as u32), ack, flags: F_ACK | F_FIN, win: 4096, ..Tcp::default() };
+                    let f = c.seg(&t);
+                    let _ = c.inject(f)?;
+                } else if c.now - last_probe >= 1_000_000 {
+                    // closed window: one octet beyond it, once a second
+                    let t = Tcp { seq: data_seq0.wrapping_add(nxt_off as u32), ack, flags: F_ACK, win: 4096, payload: vec![stream_byte(key, nxt_off)], ..Tcp::default() };
+                    let f = c.seg(&t);
+                    let _ = c.inject(f)?;
+                    last_probe = c.now;
+                    c.stats.inc("c02.honest-sender-window-probes");
+                }
+            }
+        } else {
+            // everything, the FIN included, is acknowledged: keep acknowledging what the victim sends
+            let t = Tcp { seq: data_seq0.wrapping_add(total as u32 + 1), ack, flags: F_ACK, win: 4096, ..Tcp::default() };
+            let f = c.seg(&t);
+            let _ = c.inject(f)?;
+        }
+        // ---- time: the victim's deadline, at most a second ahead
+        match c.node.poll_at(c.now)? {
+            Some(t) if t > c.now => c.now = t.min(c.now + 1_000_000),
+            Some(_) => c.now += 1_000,
+            None => c.now += 1_000_000,
+        }
+        if round == 19_999 {
+            c.stats.inc("c02.honest-sender-epilogue-capped");
         }
     }
     Ok(())
